@@ -532,6 +532,53 @@ Section BlsProofs.
     rewrite ?Z.add_0_l, ?Z.add_0_r, ?Z.mod_mod in Ec by lia.
     destruct Hb; contradiction.
   Qed.
+  (* ---- FastAggregateVerify (POP, one common message) agrees with the general aggregate check ------------ *)
+  Lemma agg_sum_same_message : forall pks m dst,
+    feq (agg_sum pks (map (fun _ => m) pks) dst) (fscale (k_a (agg_pk q pks)) (fbasis (dst, m))).
+  Proof.
+    induction pks as [|pk r IH]; intros m dst; cbn [agg_sum map agg_pk fold_right k_a].
+    - split.
+      + rewrite const_fzero, const_scaled_basis. reflexivity.
+      + intro h. rewrite coef_fzero, coef_scaled_basis. destruct (hin_eqb (dst, m) h); [|reflexivity].
+        symmetry. apply Z.mod_0_l. lia.
+    - destruct (IH m dst) as [Hc Hh]. cbn [agg_pk k_a] in Hc, Hh. split.
+      + rewrite const_fadd, !const_scaled_basis, Hc, const_scaled_basis. apply Z.mod_0_l. lia.
+      + intro h. rewrite coef_fadd, Hh, !coef_scaled_basis. destruct (hin_eqb (dst, m) h).
+        * rewrite Z.mod_mod by lia. rewrite Zplus_mod_idemp_l, Zplus_mod_idemp_r. reflexivity.
+        * apply Z.mod_0_l. lia.
+  Qed.
+
+  Lemma scaled_basis_zero : forall a h0, a mod q = 0 -> form_is0 (fscale a (fbasis h0)) = true.
+  Proof.
+    intros a h0 Ha. apply form_is0_iff. split; [apply const_scaled_basis|].
+    intro h. rewrite coef_scaled_basis. destruct (hin_eqb h0 h); [exact Ha|reflexivity].
+  Qed.
+
+  Theorem fast_aggregate_verify_equiv : forall pks m sg dst,
+    pks <> [] -> (forall pk, In pk pks -> k_sub pk = true /\ k_a pk mod q <> 0) ->
+    core_verify (agg_pk q pks) m sg dst = core_aggregate_verify pks (map (fun _ => m) pks) sg dst.
+  Proof.
+    intros pks m sg dst Hne Hg.
+    pose proof (agg_sum_same_message pks m dst) as Hs.
+    destruct (core_verify (agg_pk q pks) m sg dst) eqn:A;
+      destruct (core_aggregate_verify pks (map (fun _ => m) pks) sg dst) eqn:B; try reflexivity.
+    - apply core_verify_iff in A. destruct A as (A1 & _ & A3 & A4).
+      assert (B' : core_aggregate_verify pks (map (fun _ => m) pks) sg dst = true).
+      { apply bls_aggregate_iff. repeat split; try assumption.
+        - rewrite map_length. reflexivity.
+        - rewrite (form_is0_feq _ _ A4). apply scaled_basis_nonzero. exact A3.
+        - apply (Hg pk H).
+        - apply (Hg pk H).
+        - destruct (feq_trans _ _ _ A4 (feq_sym _ _ Hs)) as [X _]. exact X.
+        - destruct (feq_trans _ _ _ A4 (feq_sym _ _ Hs)) as [_ X]. exact X. }
+      congruence.
+    - apply bls_aggregate_iff in B. destruct B as (_ & _ & B3 & B4 & _ & B6).
+      assert (A' : core_verify (agg_pk q pks) m sg dst = true).
+      { apply core_verify_iff. pose proof (feq_trans _ _ _ B6 Hs) as E.
+        split; [exact B3|]. split; [reflexivity|]. split; [|exact E].
+        intro Hz. rewrite (form_is0_feq _ _ E), (scaled_basis_zero _ _ Hz) in B4. discriminate. }
+      congruence.
+  Qed.
 End BlsProofs.
 
 (* ---- a concrete instance: order 7, one-byte key encoding; two signers on two messages --------------- *)
